@@ -1195,10 +1195,25 @@ def deref_of_ref(fn):
             if isinstance(i0, dict) and i0.get("k") == "ref" and isinstance(i0.get("x"), dict):
                 n += 1
                 return i0["x"]
-        if x.get("k") == "mcall" and isinstance(x.get("recv"), dict) and x["recv"].get("k") == "ref" and isinstance(x["recv"].get("x"), dict) and _pure_access(x["recv"]["x"]):
-            # `(&v).m()` / `(&mut v).m()`: method-call syntax borrows the receiver anyway
-            x["recv"] = x["recv"]["x"]
-            n += 1
+        if x.get("k") == "mcall" and isinstance(x.get("recv"), dict):
+            r1 = x["recv"]
+            while isinstance(r1, dict) and r1.get("k") == "blk" and r1.get("lbl") is None and not r1["b"]["stmts"] and r1["b"].get("tail") is not None:
+                r1 = r1["b"]["tail"]
+            if isinstance(r1, dict) and r1.get("k") == "ref" and isinstance(r1.get("x"), dict) and _pure_access(r1["x"]):
+                # `(&v).m()` / `(&mut v).m()`: method-call syntax borrows the receiver anyway (the borrow is kept as the receiver's adjusted type)
+                inner_ = r1["x"]
+                tys = _TYPES[0] or []
+                ti_ = inner_.get("t")
+                if "ta" not in inner_ and ti_ is not None and ti_ < len(tys):
+                    want_ = ("&mut " if r1.get("mut") else "&") + tys[ti_]
+                    if want_ in tys:
+                        inner_ = dict(inner_)
+                        inner_["ta"] = tys.index(want_)
+                    elif r1.get("mut"):
+                        inner_ = None          # the mutable borrow cannot be recorded: keep the explicit form
+                if inner_ is not None:
+                    x["recv"] = inner_
+                    n += 1
         if x.get("k") == "ref" and isinstance(x.get("x"), dict):
             # `&*r` / `&mut *r` (a re-borrow of what the reference `r` points to) names the same place as `r`
             i0 = x["x"]
